@@ -295,7 +295,24 @@ fn table_case(src: &mut Src, ctx: &mut Ctx) -> Result<(), String> {
 }
 
 // ---- random programs: chains and trees ----------------------------------------------------------------------
+/// One long chain: 70-130 instances, each placed against the one before (few choices, so that it fits
+/// a short choice sequence). Placed in listing order and, by check_program, in reverse order, where the
+/// orderer has to descend the whole chain in one go.
+fn gen_long_chain(src: &mut Src) -> Program {
+    let cells: Vec<P> = vec![(src.i64_in(1, 9), src.i64_in(1, 9)), (2, 3)];
+    let n = src.usize_in(70, 130);
+    let side = *src.pick(&[MSide::Right, MSide::Top, MSide::Left, MSide::Bottom]);
+    let align = if side.horizontal() { MSide::Bottom } else { MSide::Left };
+    let mut insts = vec![MInst { cell: 0, rh: false, rv: false, abs: (src.signed(500), src.signed(500)), rel: None }];
+    for i in 1..n {
+        insts.push(MInst { cell: i % 2, rh: i % 3 == 0, rv: i % 5 == 0, abs: (0, 0), rel: Some(MRel { to: i - 1, side, align, sep: if i % 4 == 0 { MSep::Pitches(1) } else { MSep::None } }) });
+    }
+    Program { cells, insts, listing: (0..n).collect() }
+}
 fn gen_program(src: &mut Src) -> Program {
+    if src.prob(1, 25) {
+        return gen_long_chain(src);
+    }
     let nc = src.usize_in(1, 5);
     let cells: Vec<P> = (0..nc).map(|_| (src.i64_in(1, 30), src.i64_in(1, 30))).collect();
     let n = src.usize_in(1, 25);
